@@ -8,7 +8,8 @@ open PySMT PySMT.Parser PySMT.Std PySMT.Sexp
 /-! ## the bound variables of a quantifier -/
 
 theorem name_nonempty {n : String} (h : pnameOK n = true) : n.isEmpty = false := by
-  unfold pnameOK at h
+  have h := pnameOK_base h
+  unfold pnameOK0 at h
   split at h
   · cases h
   · rename_i c cs heq
